@@ -69,6 +69,23 @@ CHECKS = {
         note=TRUST + 'Architecture restrictions (NotImplementedError) are modelled and excluded as in the property.',
         technique='Rocq proof (induction over member lists) + exhaustive small-scope co-execution against the Python code',
     ),
+    'C17': dict(
+        ref='5.17',
+        text='Theorems in coq/Properties/C17.v: for every name, version string, architecture and directory prefix (no '
+             'underscore or slash inside the parts) the five file-name shapes (.deb/.udeb, .dsc, _copyright/_changelog, '
+             '.orig/.debian .tar.gz/.xz/.bz2/.lzma) parse back to exactly that name, the parsed version, that architecture '
+             'and the original path; every rejection is ValueError; acceptance implies 2 or 3 underscore-separated parts and a '
+             'valid version. The model of list.sort used by find_latest_version (initial run + binary insertion, exact for '
+             'lists under 64 elements) is proved to return a permutation that is non-decreasing in every class order the '
+             'comparison is compatible with - even though tuple "<" is not a strict weak order on order-equal versions - so '
+             'for packages of one name the selected one is an input no other input exceeds in dpkg order; mixed names raise '
+             'ValueError. The model is co-executed with package.py on generated names, all strings of length <=5/6 over a small '
+             'alphabet, and lists in all orders (exact equality of the selected archive).',
+        note=TRUST + 'Environment: list.sort is modelled for fewer than 64 elements (count_run + binarysort of CPython 3.12); '
+             'os.path.basename/splitext are modelled and co-executed. The per-name variant (find_latest_versions) is covered by '
+             'co-execution and the executable statement, its theorem is not proved.',
+        technique='Rocq proof (sort invariant, string lemmas) + differential co-execution against the Python code',
+    ),
     'C18': dict(
         ref='5.18',
         text='Theorems in coq/Properties/C18.v about the loop of parse_contents over decoded lines: any table of well-formed '
